@@ -140,6 +140,21 @@ class MExpander(Expander):
         f = node.func
         q = self.qualified(f)
         short = q.split(".")[-1] if q else (f.id if isinstance(f, ast.Name) else None)
+        # log(diagonal(L).prod()) / log(prod(diagonal(L))): algebraically the half log-determinant, numerically not -
+        # the product of n diagonal entries leaves the floating-point range for a few hundred points
+        if short == "log" and len(node.args) == 1:
+            a0 = node.args[0]
+            dg = None
+            if isinstance(a0, ast.Call) and isinstance(a0.func, ast.Attribute) and a0.func.attr == "prod" and not a0.args:
+                dg = a0.func.value
+            elif isinstance(a0, ast.Call) and ast.unparse(a0.func) == "prod" and len(a0.args) == 1:
+                dg = a0.args[0]
+            if isinstance(dg, ast.Call) and ast.unparse(dg.func) in ("diagonal", "diag") and dg.args:
+                Lm = self.need_m(self.eval(dg.args[0], env))
+                self.problems.append(f"`{ast.unparse(node)}` takes the logarithm of a product of all diagonal entries: the product under- or "
+                                     f"overflows for a few hundred data points (the score becomes +-inf); the log-determinant must be "
+                                     f"accumulated as a sum of logarithms")
+                return M.atom(f"hld({Lm})", 0)
         # X.sum() forms
         if isinstance(f, ast.Attribute) and f.attr == "sum" and not node.args:
             inner = f.value
